@@ -410,7 +410,8 @@ pub fn gen_reader_case(r: &mut Rng, kind: usize) -> (Vec<u8>, Vec<u64>, Vec<Op>)
     let kind = kind % N_RKIND;
     let cap = *r.pick(&[1usize, 2, 3, 4, 5, 8, 16]);
     let dl = match r.below(6) { 0 => 0, 1 => cap, 2 => cap + 1, 3 => 4 * cap + 3, 4 => r.below(20) as usize, _ => r.below(12 * cap as u64 + 2) as usize };
-    let dl = if kind == 7 && r.chance(1, 4) { 4200 + r.below(300) as usize } else { dl };
+    // MemoryMappedInput switches from buffered I/O to a memory map above 4096 bytes
+    let dl = if kind == 7 && r.chance(1, 2) { *r.pick(&[4000usize, 4095, 4096, 4097, 4200, 4500]) } else { dl };
     let data: Vec<u8> = (0..dl).map(|i| (i as u8).wrapping_mul(13).wrapping_add(r.below(3) as u8)).collect();
     let max = *r.pick(&[cap, cap, cap + 1, 2 * cap, 4 * cap + 1, 64]);
     let start = match r.below(4) { 0 => 0, 1 => r.below(dl as u64 + 2), _ => r.below(dl as u64 / 2 + 1) };
@@ -433,7 +434,7 @@ pub fn gen_reader_case(r: &mut Rng, kind: usize) -> (Vec<u8>, Vec<u64>, Vec<Op>)
         let name = *r.pick(names);
         let n = match name {
             "seek_cur" | "seek_end" => { let m = gen_sizes(r, cap); if r.chance(1, 2) { -m } else { m } }
-            "seek_start" | "seek_in" => r.below(dl as u64 + 3) as i64,
+            "seek_start" | "seek_in" => if r.chance(1, 3) { (dl as i64 - r.below(12) as i64 + 2).max(0) } else { r.below(dl as u64 + 3) as i64 },
             _ => gen_sizes(r, cap),
         };
         ops.push((name.to_string(), n));
